@@ -135,9 +135,11 @@ type State struct {
 	threads   []*Thread
 	cur       int
 	grant     bool
+	midOp     bool // a granted visible operation is being executed (forks created by it must not be rescheduled)
 	sleep     []SleepEnt
 	clock     *Term // last value handed out by the symbolic clock (ms or ns as set by harness)
 	sched     []int
+	schedOps  []string // debugging (SYMGO_TRACE_SCHED): the operation granted at each schedule entry
 	writeSeq  int // number of visible writes so far (busy-wait detection)
 	panicking bool
 	panicV    Value
@@ -179,7 +181,7 @@ func cloneFrames(fs []*Frame) []*Frame {
 
 func (s *State) clone() *State {
 	n := &State{job: s.job, heap: make(map[int]Value, len(s.heap)), nextID: s.nextID, seq: s.seq,
-		cur: s.cur, grant: s.grant, clock: s.clock, panicking: s.panicking, panicV: s.panicV, writeSeq: s.writeSeq,
+		cur: s.cur, grant: s.grant, midOp: s.midOp, clock: s.clock, panicking: s.panicking, panicV: s.panicV, writeSeq: s.writeSeq,
 		ghost: make(map[string]Value, len(s.ghost)), model: s.model, steps: s.steps}
 	for k, v := range s.ghost {
 		n.ghost[k] = v
@@ -197,6 +199,7 @@ func (s *State) clone() *State {
 	}
 	n.sleep = append([]SleepEnt(nil), s.sleep...)
 	n.sched = append([]int(nil), s.sched...)
+	n.schedOps = append([]string(nil), s.schedOps...)
 	n.pc = append(make([]*Term, 0, len(s.pc)+8), s.pc...)
 	n.inputs = append([]Input(nil), s.inputs...)
 	n.obs = append([]ObsEnt(nil), s.obs...)
